@@ -11,8 +11,11 @@ Decided:
             still start with the label (prefix-tag flow); the number written after the label is the sum of lengths
 Not decided: SHA-1 values (C12 decides constants and padding structure only); URL/version content.
 """
+import re
+
 from .. import fmt
 from ..prov import derive, index_of
+from ..strx import StrX
 from ..sym import Explorer, N, is_const, show, walk
 from ..wrules import w1, w2, w3
 
@@ -143,6 +146,24 @@ def run(ctx):
         return
     # writer: along each loop-body path count '\t' pushes before each field push
     writer_maps = []
+    ROW_FIELDS = {"length", "size_on_disk", "unknown_a", "unknown_b", "version", "hash_block_size", "hashes", "url"}
+    w_sx, w_ix, w_cache = StrX(tb), index_of(tb), {}
+
+    def w_pieces(bb):
+        """pieces of the text appended by the push_str in block bb when it is a format! with literal text (else None)"""
+        if bb not in w_cache:
+            pcs = None
+            t_ = tb.blocks[bb]["t"]
+            if t_["k"] == "call" and len(t_["args"]) > 1:
+                try:
+                    got = w_sx.string(t_["args"][1])
+                except Exception:
+                    got = None
+                if got and len(got) > 1 and all(pc[0] in ("lit", "arg") for pc in got) and any(pc[0] == "arg" for pc in got):
+                    pcs = got
+            w_cache[bb] = pcs
+        return w_cache[bb]
+
     for p in Explorer(tb).explore():
         cols = {}
         tabs = 0
@@ -158,7 +179,22 @@ def run(ctx):
                 elif is_const(ch) and ch[1] == ord(","):
                     pass
             elif last == "push_str":
-                fl = field_names(args[1]) & {"length", "size_on_disk", "unknown_a", "unknown_b", "version", "hash_block_size", "hashes", "url"}
+                pcs = w_pieces(_bb)
+                if pcs is not None:
+                    # a `format!` carrying several columns at once: walk its pieces in order
+                    for pc in pcs:
+                        if pc[0] == "lit":
+                            for part in re.split(r"(\t)", pc[1]):
+                                if part == "\t":
+                                    tabs += 1
+                                    seen_row = True
+                                elif part:
+                                    lits.append((part, tabs))
+                        elif pc[0] == "arg":
+                            for f in derive(w_ix, pc[3]).names & ROW_FIELDS:
+                                cols.setdefault(f, tabs)
+                    continue
+                fl = field_names(args[1]) & ROW_FIELDS
                 for f in fl:
                     cols.setdefault(f, tabs)
                 for t in walk(args[1]):
@@ -229,7 +265,6 @@ def run(ctx):
                 r_lits.add(args[1][1])
     # the text to_string builds, as string pieces read off the MIR (format! / push_str / push in any mix): the piece
     # that ends with the label, the formatted number after it, and what follows the number
-    from ..strx import StrX
 
     tsx = StrX(tb)
     tpcs = tsx.returned()
